@@ -229,16 +229,53 @@ def types_judge(src):
         d = parse_string(src)
     except CxxParseError:
         return None
-    toks = []
-    _walk_tokens(d, toks, set())
-    for t in toks:
+    from cxxheaderparser.tokfmt import tokfmt
+
+    groups = []
+    _walk_token_lists(d, groups, set())
+    for toks in groups:
+        odd = None
+        for t in toks:
+            try:
+                lx = real_lex(t.value)
+            except Exception as e:  # noqa
+                return f"token text {t.value!r} of the result does not lex: {e}"
+            if len(lx) != 1 or lx[0].type != t.type:
+                odd = f"token {t.value!r} is exposed with type {t.type!r}; the lexer gives {[x.type for x in lx]}"
+                break
+        if odd is None:
+            continue
+        # a token with a type of its own is only the premise failing; the property fails when the formatted list does not lex back
+        fmt = tokfmt(toks)
         try:
-            lx = real_lex(t.value)
+            back = [x.value for x in real_lex(fmt)]
         except Exception as e:  # noqa
-            return f"token text {t.value!r} of the result does not lex: {e}"
-        if len(lx) != 1 or lx[0].type != t.type:
-            return f"token {t.value!r} is exposed with type {t.type!r}; the lexer gives {[x.type for x in lx]}"
+            back = repr(e)
+        if back != [t.value for t in toks]:
+            return f"{odd}; tokfmt gives {fmt!r}, which lexes back as {back}"
     return None
+
+
+def _walk_token_lists(o, out, seen):
+    """every list of Tokens a result exposes (Value.tokens, DecltypeSpecifier.tokens, ...)"""
+    import dataclasses
+    from cxxheaderparser.types import Token
+
+    if dataclasses.is_dataclass(o) and not isinstance(o, type):
+        if id(o) in seen:
+            return
+        seen.add(id(o))
+        for f in dataclasses.fields(o):
+            _walk_token_lists(getattr(o, f.name), out, seen)
+    elif isinstance(o, (list, tuple)):
+        if o and all(isinstance(x, Token) for x in o):
+            out.append(list(o))
+            return
+        for x in o:
+            _walk_token_lists(x, out, seen)
+    elif isinstance(o, dict):
+        for x in o.values():
+            _walk_token_lists(x, out, seen)
 
 
 def types_source(ch):
@@ -280,7 +317,7 @@ def check_types(ck, tier):
         tw = chrun.run(__name__, "h_types", [(0, 0)], timeout=60, globs=dict(TWIN=True), pool=pool)
         chrun.record(ck, tw, "token types reachability twin", expect="refuted")
         r = chrun.run(__name__, "h_types", [(a,) for a in range(len(c14.POSITIONS) + 1)], timeout=150 if tier == "quick" else 600, globs=dict(TWIN=False), pool=pool)
-        chrun.record(ck, r, "premise: every Token exposed in a result carries the type the lexer gives its text (value positions x expressions, decltype, sizeof..., pragma)",
+        chrun.record(ck, r, "every token list exposed in a result carries the lexer's token types, or at least formats to a text that lexes back to it (value positions x expressions, decltype, sizeof..., pragma)",
                      bound=f"{len(c14.POSITIONS)} positions x {len(c14.EXPRS)} expressions + {len(TYPE_EXTRA)} sources")
     finally:
         pool.shutdown()
